@@ -19,6 +19,19 @@ if kind == "seed":
     t = t.replace("{FOCUS}", ("* To spread the changes of several writers over the code, aim yours at this part of the "
                               "property if you can find a good one there (otherwise anywhere the property reaches): "
                               + focus + "\n") if focus else "")
+    # ideas other writers already delivered for this property (from their own "needs to manifest" sentences - nothing
+    # about what the checks detect): a new writer should not repeat them
+    taken = []
+    sdir = os.path.join(d, "seeded")
+    for x in sorted(os.listdir(sdir)):
+        mp = os.path.join(sdir, x, "meta.json")
+        if os.path.exists(mp):
+            mm = json.load(open(mp))
+            if mm.get("property") == prop:
+                taken.append("  - " + mm.get("needs_to_manifest", ""))
+    if taken:
+        t = t.replace("Then write a **demonstration**", "* Other writers have already delivered changes that need the following to manifest - do NOT repeat any of these "
+                      "mechanisms, find a different one:\n" + "\n".join(taken) + "\n\nThen write a **demonstration**", 1)
     p = "/tmp/prompts/seed_%s.md" % sid
     open(p, "w").write(t)
     print(p)
